@@ -401,6 +401,16 @@ def target_learning(run, rid, states=TARGET_STATES):
         run.ob('R07.4', su0, t.ast, 'a REMAP event always replaces target_addr', bool(ws) and not escaped, slot='remap-target',
                message='Stream.update[REMAP] can leave target_addr as it was (assignment missing or conditional): after a remap to a name / IPv6 literal the stream '
                        'still shows its previous address')
+    # what is known about a stream's target comes from Tor's events only: outside __init__ nothing resets a target field to a
+    # constant (a DETACHED stream keeps the address of its last REMAP until Tor reports another one)
+    for n in walk_unit(su0):
+        if isinstance(n, ast.Assign):
+            for t in n.targets:
+                d = dotted(t) or ''
+                if d in ('self.target_addr', 'self.target_host', 'self.target_port') and const(n.value) is not NOCONST:
+                    run.ob('R07.4', su0, n, 'a target field is only ever set from event data', False, slot='target-forgotten:%s' % d,
+                           message='Stream.update sets %s = %s: the target Tor last reported is forgotten although no event said so' % (d, src(n.value)))
+    run.ob('R07.4', su0, su0.node, 'target assignments examined', True)
     # a stream learns its target from the first event that can carry it (instances confirmed on
     # today's tree: NEW, NEWRESOLVE, SUCCEEDED - the latter for streams first seen in a snapshot)
     su = run.idx.find_method(stream_cls(run), 'update')
@@ -514,6 +524,7 @@ RULES.insert(2, ('R07.3', 'after CLOSED/FAILED/DETACHED the stream is under no c
 from ..selftest import M  # noqa: E402
 FS, FT, FC = 'txtorcon/stream.py', 'txtorcon/torstate.py', 'txtorcon/circuit.py'
 MUTANTS = [
+    M('detach-forgets-address', 'txtorcon/stream.py', "                self.circuit.streams.remove(self)\n                self.circuit = None\n\n            # FIXME does this count as closed?", "                self.circuit.streams.remove(self)\n                self.circuit = None\n            self.target_addr = None\n\n            # FIXME does this count as closed?", ['R07.4']),
     M('remap-only-ips', 'txtorcon/stream.py', "            self.target_addr = maybe_ip_addr(args[3][:args[3].rfind(':')])", "            addr_ = maybe_ip_addr(args[3][:args[3].rfind(':')])\n            if not isinstance(addr_, str):\n                self.target_addr = addr_", ['R07.4']),
     M('closed-after-failed-swallowed', 'txtorcon/torstate.py', "        stream_id = int(args[0])\n        wasnew = False\n        if stream_id not in self.streams:", "        stream_id = int(args[0])\n        if args[1] == 'CLOSED' and stream_id in getattr(self, '_failed', ()):\n            return\n        wasnew = False\n        if stream_id not in self.streams:", ['R07.1']),
     M('stream-snapshot-not-loaded', 'txtorcon/torstate.py', "        ss = yield self.protocol.get_info_raw('stream-status')\n        self._stream_status(ss)\n", "        ss = yield self.protocol.get_info_raw('stream-status')\n", ['R07.6']),
